@@ -102,10 +102,10 @@ JReachDist(r) ==
 (* input class of a failing record: matrix powers taken in an integer type whose range   *)
 (* the walk counts leave (only the layered family gets there)                             *)
 RdClass(r) ==
-  IF r.dt \in {"int8", "uint8", "int16", "int32", "int64"} /\ r.n <= 127
-     /\ LET C == RW!ClipTab(r.n, Bin(r.n, r.A), r.n, RW!T24) IN        \* n * 2^24 < 2^31
-        \E k \in 1..r.n : \E i, j \in 1..r.n : C[k][i][j] >= RW!T24
-  THEN "integer_dtype_walk_counts_beyond_2^24" ELSE "any"
+  IF r.dt \in {"int8", "uint8", "int16", "int32", "int64"} /\ r.n <= 2000
+     /\ LET C == RW!ClipTab(r.n, Bin(r.n, r.A), r.n, 1048576) IN       \* n * 2^20 < 2^31
+        \E k \in 1..r.n : \E i, j \in 1..r.n : C[k][i][j] >= 1048576
+  THEN "integer_dtype_walk_counts_beyond_2^20" ELSE "any"
 
 (* ------------------------------------------------------- search_information ------- *)
 JSearchInfo(r) ==
